@@ -64,8 +64,17 @@ func drawGate(r *Rng, b gateBias) gateCfg {
 	}
 	nops := 4 + r.Intn(b.MaxOps)
 	prios := []int{0, 0, 1, 1, 2, -1, 5, -(1 << 62), 1 << 62}
+	// some programs first lower or raise the limit and go through Stop/Restart, so that the limit in
+	// effect after a restart is the tuned one
+	if b.Tune && b.Life && r.Chance(30) {
+		c.Ops = append(c.Ops, gateOp{Kind: "tune", Arg: Pick(r, 1, 2, 3, 5)})
+		if r.Bool() {
+			c.Ops = append(c.Ops, gateOp{Kind: "stop"})
+		}
+		c.Ops = append(c.Ops, gateOp{Kind: "restart"})
+	}
 	// start with a burst of adds so that the pool saturates
-	for i := 0; i < c.Conc+1+r.Intn(3); i++ {
+	for i := 0; i < max(c.Conc, 5)+1+r.Intn(3); i++ {
 		c.Ops = append(c.Ops, gateOp{Kind: "add", Prio: Pick(r, prios...)})
 	}
 	for i := 0; i < nops; i++ {
@@ -402,6 +411,9 @@ func epGate(c *RunCtx, cfg gateCfg) *Result {
 					err := s.W.Restart()
 					e.Ev("restart", err)
 					m.state = "Running"
+					if got := s.W.NumConcurrency(); got != m.limit {
+						e.Fail("C02", "limit-changed-by-restart", "", fmt.Sprintf("NumConcurrency=%d after Restart, the limit in effect was %d", got, m.limit))
+					}
 				} else {
 					err := s.W.Stop()
 					e.Ev("stop", err)
